@@ -218,6 +218,7 @@ func buildAF(class string, r *rng) *astits.PacketAdaptationField {
 			HasPCR: true, PCR: pcr(), HasOPCR: true, OPCR: pcr(), HasSplicingCountdown: true, SpliceCountdown: r.intn(256) - 128,
 			HasTransportPrivateData: true, TransportPrivateData: r.bytes(5), TransportPrivateDataLength: 5,
 			HasAdaptationExtensionField: true, AdaptationExtensionField: &astits.PacketAdaptationExtensionField{
+				Length:             r.pick(0, 1, 3, 5, 11, 40), // the redundant length field as a parser left it for another set of parts: the writer computes
 				HasLegalTimeWindow: true, LegalTimeWindowIsValid: r.boolean(), LegalTimeWindowOffset: uint16(r.intn(1 << 15)),
 				HasPiecewiseRate: true, PiecewiseRate: uint32(r.intn(1 << 22)),
 				HasSeamlessSplice: true, SpliceType: uint8(r.intn(16)), DTSNextAccessUnit: &astits.ClockReference{Base: cr33(r)}}}
